@@ -11,8 +11,10 @@ from fractions import Fraction
 ROOT = os.path.dirname(os.path.dirname(os.path.abspath(__file__)))
 COQ = os.path.join(ROOT, 'coq')
 OCAML = os.path.join(ROOT, 'ocaml')
-HARNESS = os.path.join(ROOT, 'harness')
-EVID = os.path.join(ROOT, 'evidence')
+# development-only overrides (used by vp/mutants.py to test seeded changes on a scratch copy of /repo)
+REPO = os.environ.get('VERIF_REPO_DIR', '/repo')
+HARNESS = os.environ.get('VERIF_HARNESS_DIR', os.path.join(ROOT, 'harness'))
+EVID = os.environ.get('VERIF_EVIDENCE_DIR', os.path.join(ROOT, 'evidence'))
 REPLAY = os.path.join(EVID, 'replay')
 MODEL_BIN = os.path.join(OCAML, '_build', 'default', 'model_svc.exe')
 IMPL_BIN = {'debug': os.path.join(HARNESS, 'target', 'debug', 'impl_svc'),
@@ -162,14 +164,14 @@ def build_harness(profiles=('debug',), bins=False):
     with Lock('cargo'):
         lock = os.path.join(HARNESS, 'Cargo.lock')
         if not os.path.exists(lock):
-            import shutil; shutil.copy('/repo/Cargo.lock', lock)
+            import shutil; shutil.copy(os.path.join(REPO, 'Cargo.lock'), lock)
         for prof in profiles:
             flag = '--release' if prof == 'release' else ''
             rc, out = sh('cargo build --offline %s 2>&1' % flag, cwd=HARNESS, timeout=3000)
             if rc: raise BuildError('cargo build (%s) failed:\n%s' % (prof, out[-6000:]))
         if bins:
             # /repo's own binaries (CLI glue), built outside /repo
-            rc, out = sh('cargo build --offline --manifest-path /repo/Cargo.toml --bins --features verif-hooks --target-dir %s 2>&1' % BIN_TARGET,
+            rc, out = sh('cargo build --offline --manifest-path %s/Cargo.toml --bins --features verif-hooks --target-dir %s 2>&1' % (REPO, BIN_TARGET),
                          cwd=HARNESS, timeout=3000)
             if rc: raise BuildError('cargo build of /repo binaries failed:\n%s' % out[-6000:])
 
@@ -324,6 +326,27 @@ def coq_audit(pid):
             if a not in ALLOWED_AXIOMS:
                 problems.append('theorem %s depends on non-allow-listed axiom %s' % (t, a))
     return dict(theorems=thms, assumptions=assumptions, closed=closed, problems=problems)
+
+def coqchk(pid):
+    """Independent re-check of Props/<pid>.vo and everything it depends on; returns (problems, summary)."""
+    rc, out = sh('timeout 3000 coqchk -o -silent -Q Model RNT.Model -Q Refine RNT.Refine -Q Props RNT.Props RNT.Props.%s 2>&1' % pid,
+                 cwd=COQ, timeout=3100)
+    problems = []
+    if rc: problems.append('coqchk failed: ' + out[-1500:])
+    m = re.search(r'\* Axioms:(.*?)\* Constants/Inductives relying on type-in-type:(.*?)\* Constants/Inductives relying on unsafe \(co\)fixpoints:(.*?)\* Inductives whose positivity is assumed:(.*)', out, re.S)
+    summ = {}
+    if m:
+        names = ['axioms', 'type_in_type', 'unsafe_fixpoints', 'assumed_positivity']
+        for n, g in zip(names, m.groups()):
+            items = [x.strip() for x in g.strip().split('\n') if x.strip() and x.strip() != '<none>']
+            summ[n] = items
+            if n != 'axioms' and items: problems.append('coqchk: %s: %s' % (n, items))
+        for a in summ.get('axioms', []):
+            if a.split()[0] not in ALLOWED_AXIOMS and not a.startswith('Coq.Floats') and 'PrimFloat' not in a and 'Uint63' not in a and 'PrimInt63' not in a:
+                problems.append('coqchk: axiom %s' % a)
+    elif not rc:
+        problems.append('coqchk: could not parse context summary')
+    return problems, summ
 
 # ---------------------------------------------------------------- evidence / findings
 
